@@ -770,6 +770,7 @@ func C04() *engine.Check {
 			c04RealSubZ("real-clock-zone-east", "sound", 2, 3, time.FixedZone("verif-east", 13*3600+1800), 2*time.Hour),
 			c04RealEnvSub("real-clock-hostile-environment", "sound"),
 			clockSub("C04"),
+			clockHistSub("C04"),
 			longChainSub("C04"),
 			c04EpochSub(),
 			c04AcrossExpirySub(),
